@@ -60,7 +60,11 @@ class ResolverMap:
             ValueError: If the resolver has already been defined and
                 ``allow_override`` was ``False``.
         """
-        if typename in self.default_resolvers and not allow_override:
+        if (
+            typename in self.default_resolvers
+            and not allow_override
+            and self.default_resolvers[typename] is not resolver
+        ):
             raise ValueError(
                 'Type "%s" already has a default resolver.' % (typename,)
             )
@@ -209,6 +213,16 @@ class ResolverMap:
                 self.register_resolver(
                     typename, fieldname, resolver, allow_override=allow_override
                 )
+
+        for typename, default in other.default_resolvers.items():
+            self.register_default_resolver(
+                typename, default, allow_override=allow_override
+            )
+
+        if other.default_resolver is not None and (
+            allow_override or self.default_resolver is None
+        ):
+            self.default_resolver = other.default_resolver
 
         for typename, field_subscriptions in other.subscriptions.items():
             for fieldname, subscription in field_subscriptions.items():
